@@ -72,6 +72,9 @@ def deep(tracks, counters: bool = False) -> dict:
     d["scale"] = None if tracks.scale is None else norm(list(tracks.scale))
     f = tracks.features
     d["features"] = {k: norm(dict(v)) for k, v in f.items()}
+    # ... and literally (a tuple turned into a list is a modification of the registry)
+    d["features_literal"] = {k: repr(sorted((str(a), repr(b)) for a, b in dict(v).items()))
+                             for k, v in f.items()}
     d["feature_keys"] = (
         f.time_key,
         norm(f.position_key),
